@@ -15,6 +15,7 @@ type fSched struct{ s *simrt.Sched }
 func (f *fSched) Install()                    { simrt.Install(f.s) }
 func (f *fSched) SetSelectSeed(seed uint64)   { f.s.SelectSeed = seed }
 func (f *fSched) SetDriverWait(w func() bool) { f.s.DriverWait = w }
+func (f *fSched) SetNotify(n chan struct{})   { f.s.SetNotify(n) }
 func (f *fSched) Uninstall()                  { simrt.Install(nil) }
 func (f *fSched) Waiters() []core.FWaiter {
 	ws := f.s.Waiters()
